@@ -81,7 +81,7 @@ def fixed_length(ctx: Ctx, n: int):
             replay = {"helper": "create_fixed_length_tree", "grammar": g, "start": nt, "target_length": target}
             try:
                 t = ctx_guard(lambda: create_fixed_length_tree(nt, cg, target))
-            except TimeoutError:
+            except (GuardTimeout, MemoryError):
                 ctx.count("fixed_length", "no-answer-within-8s")
                 continue
             except Exception as e:  # noqa
@@ -103,19 +103,36 @@ def fixed_length(ctx: Ctx, n: int):
     ctx.sample({"helper": "create_fixed_length_tree", "calls": n * 3})
 
 
+class GuardTimeout(BaseException):
+    """not an Exception: the helpers under test must not be able to swallow it"""
+
+
 def ctx_guard(fn, seconds: int = 8):
     import signal
 
     def on_alarm(signum, frame):
-        raise TimeoutError()
+        raise GuardTimeout()
+
+    import resource
 
     old = signal.signal(signal.SIGALRM, on_alarm)
+    soft, hard = resource.getrlimit(resource.RLIMIT_AS)
+    try:
+        # a runaway call ends in MemoryError instead of starving the machine (only around the call: lake / the
+        # driver reserve a large address space)
+        resource.setrlimit(resource.RLIMIT_AS, (16 << 30, hard))
+    except (ValueError, OSError):
+        pass
     signal.alarm(seconds)
     try:
         return fn()
     finally:
         signal.alarm(0)
         signal.signal(signal.SIGALRM, old)
+        try:
+            resource.setrlimit(resource.RLIMIT_AS, (soft, hard))
+        except (ValueError, OSError):
+            pass
 
 
 def numeric_values(ctx: Ctx, n: int):
@@ -145,7 +162,7 @@ def numeric_values(ctx: Ctx, n: int):
         replay = {"helper": "extract_model_value (int variable)", "grammar_name": name, "grammar": g, "nonterminal": nt, "value": v}
         try:
             t = ctx_guard(lambda: solver.extract_model_value(var, model, {var: x0}, set(), {var}))
-        except TimeoutError:
+        except (GuardTimeout, MemoryError):
             ctx.count("numeric_result", "no-answer-within-8s")
             continue
         except RuntimeError as e:
@@ -212,7 +229,7 @@ def count_completion(ctx: Ctx, n: int):
         replay = {"helper": "count", "grammar": g, "argument": arg_plain, "argument_str": T.tree_str(arg_plain), "needle": needle, "target": target}
         try:
             res = ctx_guard(lambda: COUNT_PREDICATE.evaluate(graph, dt, needle, DerivationTree(str(target), ())))
-        except TimeoutError:
+        except (GuardTimeout, MemoryError):
             ctx.count("count_result", "no-answer-within-8s")
             continue
         except AssertionError:
@@ -256,6 +273,16 @@ def count_completion(ctx: Ctx, n: int):
             if verdict is False and count_ok is True and closed_for_needle is True:
                 ctx.violation("count:verdict-false", f"count({replay['argument_str']!r}, {replay['needle']}, {replay['target']}) answered False although exactly {replay['target']} needles occur and no more can", replay)
     ctx.sample({"helper": "count", "calls": n})
+
+
+def limit_memory(gib: int = 12):
+    import resource
+
+    try:
+        soft, hard = resource.getrlimit(resource.RLIMIT_AS)
+        resource.setrlimit(resource.RLIMIT_AS, (gib << 30, hard))
+    except (ValueError, OSError):
+        pass
 
 
 def run(ctx: Ctx):
